@@ -15,7 +15,7 @@ from ..cfg import cfg_of
 from ..escape import Escape, _codec_args
 from ..model import (UNKNOWN, AnchorError, Class, Func, Project, UnknownIdiom, attr_chain, func_owner_class,
                      local_names, short, walk_no_nested)
-from .common import strip_await, walk_self
+from .common import enclosing_map, implied, strip_await, walk_self
 
 
 # ---------------------------------------------------------------------------
@@ -709,10 +709,110 @@ class MultipartEscape(Escape):
     def _subscript(self, n, func, handlers, out):
         # a mapping lookup by a literal str/bytes key raises KeyError when the
         # key is absent (sequence subscripts use ints and stay "in range")
-        if isinstance(n.slice, ast.Constant) and isinstance(n.slice.value, (str, bytes)):
+        key = self._literal_key(func, n.slice)
+        if key is not None:
+            if self._membership_guarded(n, key, func):
+                # LBYL: `if k not in d: raise ...` / `if k in d:` dominates the read, the mapping untouched in between
+                self.exempt_used['%s :: %s' % (func.qual, short(n, 80))] = 'the key was tested to be in the mapping on every path to the read'
+                return
             self._prim(out, 'builtins.KeyError', func, n, handlers, 'mapping lookup by literal key')
             return
         return super()._subscript(n, func, handlers, out)
+
+    def _literal_key(self, func, e):
+        """the str / bytes value of a literal key - also through a module-level constant name"""
+        if isinstance(e, ast.Constant):
+            return e.value if isinstance(e.value, (str, bytes)) else None
+        if isinstance(e, (ast.Name, ast.Attribute)):
+            v = self.p.fold(func.module, e, func_owner_class(func), func)
+            if isinstance(v, (str, bytes)):
+                return v
+        if isinstance(e, ast.Name):
+            d = Defs(func).single(e.id)              # a local bound once to a literal is that literal
+            if isinstance(d, ast.Constant) and isinstance(d.value, (str, bytes)):
+                return d.value
+        return None
+
+    def _membership_guarded(self, n: ast.Subscript, key, func) -> bool:
+        """`D[key]` is read only where `key in D` is known to hold: the read is dominated by the branch edge of a
+        membership test of the same key in the same mapping expression (a local name or an attribute chain) that
+        establishes presence - T arm of `key in D`, F arm of `key not in D`, through and / or / not - or sits behind
+        such a test in the same `and` chain / conditional expression; and nothing between the test and the read can
+        remove the key (re-binding of D, del D[..], D.pop / popitem / clear, D handed to a call)."""
+        dch = attr_chain(n.value)
+        if dch is None:
+            return False
+
+        def atom(x):
+            return (isinstance(x, ast.Compare) and len(x.ops) == 1 and isinstance(x.ops[0], (ast.In, ast.NotIn))
+                    and self._literal_key(func, x.left) == key and type(self._literal_key(func, x.left)) is type(key)
+                    and attr_chain(x.comparators[0]) == dch)
+
+        def presence(test, truth) -> bool:
+            for a in [x for x in walk_self(test) if atom(x)]:
+                v = implied(test, truth, lambda e, a=a: e is a)
+                if v is not None and v == isinstance(a.ops[0], ast.In):
+                    return True
+            return False
+
+        # (1) inside one expression: `k in d and d[k] ...`, `d[k] if k in d else ...`
+        par = enclosing_map(func.node)
+        cur, child = par.get(id(n)), n
+        while cur is not None and not isinstance(cur, ast.stmt):
+            if isinstance(cur, ast.BoolOp):
+                i = [j for j, v in enumerate(cur.values) if v is child]
+                if i and any(presence(v, isinstance(cur.op, ast.And)) for v in cur.values[:i[0]]):
+                    return True
+            if isinstance(cur, ast.IfExp) and ((child is cur.body and presence(cur.test, True)) or (child is cur.orelse and presence(cur.test, False))):
+                return True
+            child, cur = cur, par.get(id(cur))
+
+        # (2) a dominating branch edge
+        cfg = cfg_of(func, self.p)
+        sites = [m.id for m in cfg.live_nodes() if any(x is n for x in m.walk())]
+        if not sites:
+            return False
+        edges = [(t.id, y, l) for t in cfg.live_nodes() if t.kind == 'test' for (y, l) in cfg.succ[t.id]
+                 if l in ('T', 'F') and presence(t.ast, l == 'T')]
+        if not edges:
+            return False
+        root = dch[0]
+
+        def kills(m) -> bool:
+            if m.kind not in ('stmt', 'iter', 'with', 'handler'):
+                return False
+            if m.kind == 'handler':
+                return getattr(m.ast, 'name', None) == root
+            for x in m.walk():
+                if isinstance(x, ast.Name) and isinstance(x.ctx, (ast.Store, ast.Del)) and x.id == root:
+                    return True
+                if isinstance(x, ast.Attribute) and isinstance(x.ctx, (ast.Store, ast.Del)) and attr_chain(x) is not None \
+                        and dch[:len(attr_chain(x))] == attr_chain(x):
+                    return True
+                if isinstance(x, ast.Subscript) and isinstance(x.ctx, ast.Del) and attr_chain(x.value) == dch:
+                    return True
+                if isinstance(x, ast.Call):
+                    if isinstance(x.func, ast.Attribute) and attr_chain(x.func.value) == dch and x.func.attr in (
+                            'pop', 'popitem', 'clear', '__delitem__', '__init__'):
+                        return True
+                    if any(attr_chain(a) == dch or (len(dch) > 1 and attr_chain(a) == dch[:1])
+                           for a in list(x.args) + [k.value for k in x.keywords] for a in [a.value if isinstance(a, ast.Starred) else a]):
+                        return True
+            return False
+
+        killers = {m.id for m in cfg.live_nodes() if kills(m)}
+        for site in sites:
+            ok = False
+            for e in edges:
+                if not flow.dominated_by_edge(cfg, site, e):
+                    continue
+                between = flow.reachable(cfg, [e[1]]) & flow.co_reachable(cfg, [site])
+                if not ((killers & between) - {site}):
+                    ok = True
+                    break
+            if not ok:
+                return False
+        return True
 
     def _attr_read(self, n, func, selfcls, handlers, out):
         rc = self._receiver_class(n.value, func, selfcls)
